@@ -27,12 +27,13 @@ ASSUMPTIONS = OC.STUBS + [
     "the raw log (Optimize._log) is inspected instead of Optimize.log(), which only copies it into a Table",
 ]
 BOUNDS = {
-    "quick": "2 knobs x 1 target: step() on a matched point; disable(vary=1); knob 1 changed by hand; step(). 1 knob x 1 target: {step(1), step(1, take_best=False), solve()} followed by {reload(i), tag(), clear_log()}, and {reload, tag, clear_log} followed by any of the six calls; "
+    "quick": "on every final log also get_knob_values(i) for every row and reload(tag=...) for every tag present (last row so tagged); 2 knobs x 1 target: step() on a matched point; disable(vary=1); knob 1 changed by hand; step(). 1 knob x 1 target: {step(1), step(1, take_best=False), solve()} followed by {reload(i), tag(), clear_log()}, and {reload, tag, clear_log} followed by any of the six calls; "
              "1 knob x 2 targets with target 1 initially disabled and the start point assumed to match target 0: solve()|step(1); enable(target=1); step(1); n_bisections=0",
     "thorough": "2x1 sequences of 2 calls, 1x1 sequences of 3 calls, step(2), n_bisections=1",
 }
 OUTSIDE = c09.OUTSIDE + "; rows of logs longer than those produced by 3 calls"
-REQUIRED_CLASSES = ["row_reload_checked", "row_penalty_checked", "take_best_checked", "take_best_reload_taken", "failing_solve"]
+REQUIRED_CLASSES = ["row_reload_checked", "row_penalty_checked", "take_best_checked", "take_best_reload_taken", "failing_solve",
+                    "get_knob_values_checked", "reload_by_tag_checked", "row_after_reload_checked"]
 REPLAY_REALS = ["fraction"]
 PROFILE_CASES = 2
 TASKS_PER_CHILD = 10
@@ -184,6 +185,49 @@ def run_case(ex, case):
         ta = "".join("y" if t.active else "n" for t in opt._err.targets)
         if va != vact or ta != tact:
             ex.fail(f"reload({i}) leaves flags {va}/{ta}, row {i} records {vact}/{tact}", det2)
+            return
+        # reload() logs the point it has just restored: that new row must be truthful too (masks as the
+        # flags now are, penalty of the restored point under those masks)
+        OC.note(ex, "row_after_reload_checked")
+        if log["vary_active"][-1] != va or log["target_active"][-1] != ta:
+            ex.fail(f"the row logged by reload({i}) records masks {log['vary_active'][-1]}/{log['target_active'][-1]} while the active flags are {va}/{ta}", det2)
+            return
+        if not ex.prove(term(log["penalty"][-1]) == term(expected_penalty(P, now, ta)),
+                        f"the row logged by reload({i}) records a penalty that differs from an independent evaluation at the restored knobs and flags", det2):
+            return
+    # secondary read/reload entry points on the same log: get_knob_values(i), reload(tag=...), log()
+    for i in range(nrows):
+        try:
+            kv = opt.get_knob_values(i)
+        except (Abort, Inconclusive):
+            raise
+        except Exception as e:
+            ex.fail(f"get_knob_values({i}) raised {type(e).__name__}: {e}", det)
+            return
+        OC.note(ex, "get_knob_values_checked")
+        for k in range(P.NK):
+            if not ex.prove(eq(kv[f"k{k}"], log["knobs"][i][k]), f"get_knob_values({i}) differs from row {i} of the log at knob {k}", dict(det, row=i)):
+                return
+    for tg in sorted({t for t in log["tag"][:nrows] if t}):
+        last = max(i for i in range(nrows) if log["tag"][i] == tg)
+        knobs = list(log["knobs"][last])
+        vact, tact = log["vary_active"][last], log["target_active"][last]
+        try:
+            opt.reload(tag=tg)
+        except (Abort, Inconclusive):
+            raise
+        except Exception as e:
+            ex.fail(f"reload(tag={tg!r}) raised {type(e).__name__}: {e}", det)
+            return
+        OC.note(ex, "reload_by_tag_checked")
+        now = P.knobs_now()
+        for k in range(P.NK):
+            if not ex.prove(eq(now[k], knobs[k]), f"reload(tag={tg!r}) does not put knob {k} of the last row tagged so (row {last}) back", dict(det, row=last)):
+                return
+        va = "".join("y" if v.active else "n" for v in opt._err.vary)
+        ta = "".join("y" if t.active else "n" for t in opt._err.targets)
+        if va != vact or ta != tact:
+            ex.fail(f"reload(tag={tg!r}) leaves flags {va}/{ta}, row {last} records {vact}/{tact}", dict(det, row=last))
             return
     if len(ex.samples) < 2:
         ex.samples.append({"calls": list(hist), "rows": nrows})
